@@ -119,7 +119,7 @@ Proof.
   { destruct (cond h) eqn:C; [|reflexivity]. cbn. apply Hfree; [left; reflexivity|exact C]. }
   rewrite E. inversion Hnd as [|? ? Hnotin Hnd']; subst.
   assert (Hother : forall it, In it r -> (it_pk it, it_cc it) <> (it_pk h, it_cc h)).
-  { intros it Hin Heq. apply Hnotin. change (it_pk h, it_cc h) with (key h). rewrite <- Heq.
+  { intros it Hin Heq. apply Hnotin. replace (key h) with (key it) by (unfold key; exact Heq).
     apply (in_map key). exact Hin. }
   destruct (IH (put st (it_pk h) (it_cc h) (it_val h)) Hnd') as [Hres Hget].
   { intros it Hin C. unfold found. rewrite get_put_other by (apply Hother; exact Hin).
@@ -251,7 +251,7 @@ Lemma log_code_table k trust : (trust <=? 2) = true ->
   (log_code k trust false =? 1) = protected trust k true.
 Proof.
   intros T K. destruct k; try contradiction; unfold log_code; rewrite ?H_plog, ?H_wlog, ?H_rwlog;
-    destruct (trust_cases trust T) as [->|[->|->]]; split; reflexivity.
+    destruct (trust_cases trust T) as [-> | [-> | ->]]; split; reflexivity.
 Qed.
 
 Lemma rec_code_table k trust : (trust <=? 2) = true ->
@@ -260,7 +260,7 @@ Lemma rec_code_table k trust : (trust <=? 2) = true ->
   forall new, (rec_code k trust =? 1) && new = protected trust k new.
 Proof.
   intros T K. destruct k; try contradiction; unfold rec_code; rewrite ?H_rec, ?H_rec_re;
-    destruct (trust_cases trust T) as [->|[->|->]]; split; try reflexivity; intros []; reflexivity.
+    destruct (trust_cases trust T) as [-> | [-> | ->]]; split; try reflexivity; intros []; reflexivity.
 Qed.
 
 Lemma domain_loads_ok now (st : store) (slots : list slot) :
@@ -278,6 +278,15 @@ Lemma protected_log_new trust k new :
   match k with KPlog | KWlog | KReapplyWlog => True | _ => False end ->
   protected trust k new = protected trust k true.
 Proof. destruct k; try contradiction; reflexivity. Qed.
+
+Ltac split_run Run :=
+  match type of Run with
+  | Some (?x, _) = Some (?a, ?b, _) =>
+      let Ea := fresh "Ea" in let Eb := fresh "Eb" in
+      pose proof (f_equal (fun o => match o with Some (p, _) => fst p | None => a end) Run) as Ea;
+      pose proof (f_equal (fun o => match o with Some (p, _) => snd p | None => b end) Run) as Eb;
+      change (fst x = a) in Ea; change (snd x = b) in Eb; clear Run; subst a b
+  end.
 
 Theorem step_link trust now (st st' : store) (s : step) :
   check_step stamp veqb trust now st s = Some st' -> satisfies_step stamp veqb trust s = true.
@@ -298,39 +307,41 @@ Proof.
   unfold run_step, items_of in Run. rewrite Er. rewrite Dcorr in Run.
   destruct (s_kind s) eqn:K; try reflexivity.
   - (* PutPlog *)
-    destruct (map sl_it (s_slots s)) as [|it [|? ?]] eqn:Its; try discriminate. inversion Run; subst st1 r cs. clear Run.
-    destruct (log_code_table KPlog trust T I) as [NP Tab]. unfold run_log in *. rewrite NP in *. rewrite <- Its in *.
+    destruct (map sl_it (s_slots s)) as [|it [|? ?]] eqn:Its; try discriminate. split_run Run.
+    destruct (log_code_table KPlog trust T I) as [NP Tab]. unfold run_log in *. rewrite NP in *. rewrite <- Its in *. rewrite <- Eb.
     apply engine_judge.
     + intros sl _. unfold log_cond. rewrite Tab. reflexivity.
     + exact Ho.
   - (* PutWlog *)
-    destruct (map sl_it (s_slots s)) as [|it [|? ?]] eqn:Its; try discriminate. inversion Run; subst st1 r cs. clear Run.
-    destruct (log_code_table KWlog trust T I) as [NP Tab]. unfold run_log in *. rewrite NP in *. rewrite <- Its in *.
+    destruct (map sl_it (s_slots s)) as [|it [|? ?]] eqn:Its; try discriminate. split_run Run.
+    destruct (log_code_table KWlog trust T I) as [NP Tab]. unfold run_log in *. rewrite NP in *. rewrite <- Its in *. rewrite <- Eb.
     apply engine_judge.
     + intros sl _. unfold log_cond. rewrite Tab. reflexivity.
     + exact Ho.
   - (* Apply *)
-    inversion Run; subst st1 r cs. clear Run.
+    split_run Run.
     destruct (rec_code_table KApply trust T I) as [NP Tab]. unfold run_recs in *.
-    rewrite (domain_loads_ok now st (s_slots s) (fun sl H => proj1 (Ho sl H)) Dupd) in *. cbn [negb] in *.
+    pose proof (domain_loads_ok now st (s_slots s) (fun sl H => proj1 (Ho sl H)) Dupd) as L.
+    rewrite L in *. cbn [negb] in *.
     destruct (map sl_it (s_slots s)) as [|i0 r0] eqn:Its.
     + change (@nil item) with (map sl_it (@nil slot)) in Its.
-      destruct (s_slots s); [|discriminate]. reflexivity.
-    + rewrite NP in *. rewrite <- Its in *. apply engine_judge.
+      destruct (s_slots s); [|discriminate]. rewrite <- Eb. reflexivity.
+    + rewrite NP in *. rewrite <- Its in *. rewrite <- Eb. apply engine_judge.
       * intros sl _. unfold rec_cond. apply Tab.
       * exact Ho.
   - (* ApplyRecords of the re-applier *)
-    inversion Run; subst st1 r cs. clear Run.
+    split_run Run.
     destruct (rec_code_table KReapplyRecs trust T I) as [NP Tab]. unfold run_recs in *.
-    rewrite (domain_loads_ok now st (s_slots s) (fun sl H => proj1 (Ho sl H)) Dupd) in *. cbn [negb] in *.
+    pose proof (domain_loads_ok now st (s_slots s) (fun sl H => proj1 (Ho sl H)) Dupd) as L.
+    rewrite L in *. cbn [negb] in *.
     destruct (map sl_it (s_slots s)) as [|i0 r0] eqn:Its.
-    + destruct (s_slots s); [|discriminate]. reflexivity.
-    + rewrite NP in *. rewrite <- Its in *. apply engine_judge.
+    + destruct (s_slots s); [|discriminate]. rewrite <- Eb. reflexivity.
+    + rewrite NP in *. rewrite <- Its in *. rewrite <- Eb. apply engine_judge.
       * intros sl _. unfold rec_cond. apply Tab.
       * exact Ho.
   - (* PutWLog of the re-applier *)
-    destruct (map sl_it (s_slots s)) as [|it [|? ?]] eqn:Its; try discriminate. inversion Run; subst st1 r cs. clear Run.
-    destruct (log_code_table KReapplyWlog trust T I) as [NP Tab]. unfold run_log in *. rewrite NP in *. rewrite <- Its in *.
+    destruct (map sl_it (s_slots s)) as [|it [|? ?]] eqn:Its; try discriminate. split_run Run.
+    destruct (log_code_table KReapplyWlog trust T I) as [NP Tab]. unfold run_log in *. rewrite NP in *. rewrite <- Its in *. rewrite <- Eb.
     apply engine_judge.
     + intros sl _. unfold log_cond. rewrite Tab. reflexivity.
     + exact Ho.
@@ -343,5 +354,161 @@ Proof.
   cbn in H |- *. destruct (check_step stamp veqb (t_trust t) now st s) as [st'|] eqn:C; [|discriminate].
   rewrite (step_link _ _ _ _ _ C). cbn. eapply IH. exact H.
 Qed.
+
+(* ---- the clauses of the statement, about the writers themselves ---- *)
+Hypothesis H_plog_c : c05_plog_corrupted_ops = [0; 0; 0].
+Hypothesis H_wlog_c : c05_wlog_corrupted_ops = [0; 0; 0].
+
+Lemma found_some now (st : store) (it : item) old :
+  get now st (it_pk it) (it_cc it) = Some old -> found now st it = true.
+Proof. unfold found. intros ->. reflexivity. Qed.
+
+Lemma run_log_ins now (st : store) (it : item) :
+  run_log 1 now st it = (if found now st it then (st, RViolation) else (put st (it_pk it) (it_cc it) (it_val it), ROk))
+  /\ run_log_calls 1 now st it = [CIns (it_pk it) (it_cc it) (it_val it) 0%Z (negb (found now st it))].
+Proof.
+  unfold run_log, run_log_calls. change (1 <? 1) with false. cbn iota. rewrite write_items_cons.
+  cbn [write_calls]. unfold log_cond. change (1 =? 1) with true. cbn [andb].
+  destruct (found now st it) eqn:F.
+  - rewrite (ins_found _ _ _ F), H_ttl. split; reflexivity.
+  - rewrite (ins_not_found _ _ _ F), H_ttl. split; reflexivity.
+Qed.
+
+Lemma run_log_put now (st : store) (it : item) :
+  run_log 0 now st it = (put st (it_pk it) (it_cc it) (it_val it), ROk)
+  /\ run_log_calls 0 now st it = [CPut (it_pk it) (it_cc it) (it_val it)].
+Proof. split; reflexivity. Qed.
+
+(* trust 0 and 1: an append at an occupied PLog / WLog offset is refused, nothing is written *)
+Theorem log_append_refused_proved k trust now (st : store) (it : item) old :
+  k = KPlog \/ k = KWlog -> trust < 2 ->
+  get now st (it_pk it) (it_cc it) = Some old ->
+  run_log (log_code k trust false) now st it = (st, RViolation) /\
+  run_log_calls (log_code k trust false) now st it = [CIns (it_pk it) (it_cc it) (it_val it) 0%Z false].
+Proof.
+  intros K T G. assert (C : log_code k trust false = 1).
+  { assert (trust = 0 \/ trust = 1) as [-> | ->] by lia; destruct K as [-> | ->]; unfold log_code;
+      rewrite ?H_plog, ?H_wlog; reflexivity. }
+  rewrite C. destruct (run_log_ins now st it) as [R Cs]. rewrite R, Cs, (found_some _ _ _ _ G). split; reflexivity.
+Qed.
+
+(* every level: an append at an empty offset is written and reads back *)
+Theorem log_append_empty_proved k trust now (st : store) (it : item) :
+  k = KPlog \/ k = KWlog -> trust <= 2 ->
+  get now st (it_pk it) (it_cc it) = None ->
+  run_log (log_code k trust false) now st it = (put st (it_pk it) (it_cc it) (it_val it), ROk).
+Proof.
+  intros K T G. assert (F : found now st it = false) by (unfold found; rewrite G; reflexivity).
+  assert (C : log_code k trust false = 1 \/ log_code k trust false = 0).
+  { assert (trust = 0 \/ trust = 1 \/ trust = 2) as [-> | [-> | ->]] by lia; destruct K as [-> | ->]; unfold log_code;
+      rewrite ?H_plog, ?H_wlog; (left; reflexivity) || (right; reflexivity). }
+  destruct C as [-> | ->].
+  - rewrite (proj1 (run_log_ins now st it)), F. reflexivity.
+  - apply run_log_put.
+Qed.
+
+(* level 2, sys.Corrupted events and the re-applier overwrite whatever the slot holds *)
+Theorem log_overwrite_proved k trust corrupted now (st : store) (it : item) :
+  trust <= 2 ->
+  ((k = KPlog \/ k = KWlog) /\ (trust = 2 \/ corrupted = true)) \/ k = KReapplyWlog ->
+  run_log (log_code k trust corrupted) now st it = (put st (it_pk it) (it_cc it) (it_val it), ROk).
+Proof.
+  intros T H. assert (C : log_code k trust corrupted = 0).
+  { assert (trust = 0 \/ trust = 1 \/ trust = 2) as Tc by lia.
+    destruct H as [[K [-> | ->]] | ->]; [destruct K as [-> | ->]; destruct corrupted| |exact H_rwlog];
+      unfold log_code; rewrite ?H_plog, ?H_wlog, ?H_plog_c, ?H_wlog_c; try reflexivity;
+      destruct K as [-> | ->]; destruct Tc as [-> | [-> | ->]]; reflexivity. }
+  rewrite C. apply run_log_put.
+Qed.
+
+Lemma rec_code_apply0 : rec_code KApply 0 = 1.
+Proof. unfold rec_code. rewrite H_rec. reflexivity. Qed.
+
+Lemma rec_code_unguarded k trust :
+  trust <= 2 -> (k = KApply /\ 1 <= trust) \/ k = KReapplyRecs -> rec_code k trust = 0.
+Proof.
+  intros T H. assert (trust = 0 \/ trust = 1 \/ trust = 2) as Tc by lia.
+  destruct H as [[-> L] | ->]; unfold rec_code; rewrite ?H_rec, ?H_rec_re;
+    destruct Tc as [-> | [-> | ->]]; try reflexivity; lia.
+Qed.
+
+(* level 0: creating a record whose id exists answers SequencesViolation ... *)
+Theorem create_existing_refused_proved now (st : store) (items : list item) (it : item) old :
+  loads_ok now st items = true ->
+  In it items -> it_new it = true -> get now st (it_pk it) (it_cc it) = Some old ->
+  snd (run_recs (rec_code KApply 0) now st items) = RViolation.
+Proof.
+  intros L Hin Hn G. unfold run_recs. rewrite L. cbn [negb]. rewrite rec_code_apply0.
+  destruct items as [|h r]; [destruct Hin|]. change (1 <? 1) with false. cbn iota.
+  apply (write_violation _ now (h :: r) st it Hin);
+    [unfold rec_cond; rewrite Hn; reflexivity | eapply found_some; eauto].
+Qed.
+
+(* ... and the stored row is intact bit for bit, whatever else the event writes, unless the same
+   event also updates that very record *)
+Theorem existing_entry_intact_proved now (st : store) (items : list item) pk cc :
+  get now st pk cc <> None ->
+  (forall it, In it items -> key it = (pk, cc) -> it_new it = true) ->
+  raw_lookup (fst (run_recs (rec_code KApply 0) now st items)) pk cc = raw_lookup st pk cc.
+Proof.
+  intros G Hall. unfold run_recs. destruct (negb (loads_ok now st items)); [reflexivity|].
+  rewrite rec_code_apply0. destruct items as [|h r]; [reflexivity|]. change (1 <? 1) with false. cbn iota.
+  apply write_keeps_guarded; [exact G|]. intros it Hin Hk. unfold rec_cond. rewrite (Hall it Hin Hk). reflexivity.
+Qed.
+
+(* every level and re-apply: when no guarded row aims at an existing record (in particular: an
+   event that only updates), the call succeeds and every record reads back as written *)
+Theorem apply_succeeds_proved k trust now (st : store) (items : list item) :
+  k = KApply \/ k = KReapplyRecs -> trust <= 2 ->
+  loads_ok now st items = true -> NoDup (map key items) ->
+  (forall it, In it items -> protected trust k (it_new it) = true -> found now st it = false) ->
+  snd (run_recs (rec_code k trust) now st items) = ROk /\
+  forall it, In it items -> get now (fst (run_recs (rec_code k trust) now st items)) (it_pk it) (it_cc it) = Some (it_val it).
+Proof.
+  intros K T L ND Hfree. unfold run_recs. rewrite L. cbn [negb].
+  destruct items as [|h r]; [split; [reflexivity|intros it []]|].
+  assert (Tb : (trust <=? 2) = true) by (apply N.leb_le; exact T).
+  destruct (rec_code_table k trust Tb) as [NP Tab]; [destruct K as [-> | ->]; exact I|].
+  rewrite NP. apply write_all_ok; [exact ND|].
+  intros it Hin C. apply Hfree; [exact Hin|]. rewrite <- Tab. exact C.
+Qed.
+
+Corollary updates_always_succeed_proved k trust now (st : store) (items : list item) :
+  k = KApply \/ k = KReapplyRecs -> trust <= 2 ->
+  loads_ok now st items = true -> NoDup (map key items) ->
+  (forall it, In it items -> it_new it = false) ->
+  snd (run_recs (rec_code k trust) now st items) = ROk /\
+  forall it, In it items -> get now (fst (run_recs (rec_code k trust) now st items)) (it_pk it) (it_cc it) = Some (it_val it).
+Proof.
+  intros K T L ND Hupd. apply apply_succeeds_proved; auto.
+  intros it Hin P. rewrite (Hupd it Hin) in P. destruct K as [-> | ->]; cbn in P; [|discriminate].
+  rewrite andb_false_r in P. discriminate.
+Qed.
+
+(* levels 1 and 2 and re-apply: the batch is one PutBatch - existing records are overwritten *)
+Theorem apply_unguarded_overwrites_proved k trust now (st : store) (items : list item) :
+  trust <= 2 -> (k = KApply /\ 1 <= trust) \/ k = KReapplyRecs ->
+  loads_ok now st items = true ->
+  run_recs (rec_code k trust) now st items = (put_batch st (rows items), ROk).
+Proof.
+  intros T H L. unfold run_recs. rewrite L. cbn [negb]. rewrite (rec_code_unguarded k trust T H).
+  destruct items as [|h r]; [reflexivity|]. change (1 <? 0) with false. cbn iota.
+  rewrite <- write_items_put_batch with (now := now). f_equal.
+Qed.
+
+(* records the event does not mention are never touched *)
+Theorem apply_frame_proved code now (st : store) (items : list item) pk cc :
+  (forall it, In it items -> key it <> (pk, cc)) ->
+  raw_lookup (fst (run_recs code now st items)) pk cc = raw_lookup st pk cc.
+Proof.
+  intros Hall. unfold run_recs. destruct (negb (loads_ok now st items)); [reflexivity|].
+  destruct items as [|h r]; [reflexivity|]. destruct (1 <? code); [reflexivity|].
+  apply write_frame. exact Hall.
+Qed.
+
+(* a re-read update whose record is gone is answered before anything is written *)
+Theorem apply_missing_update_proved code now (st : store) (items : list item) :
+  loads_ok now st items = false -> run_recs code now st items = (st, RNotFound).
+Proof. intros L. unfold run_recs. rewrite L. reflexivity. Qed.
 
 End Engine.
